@@ -454,3 +454,19 @@ def fx_rangedep(fx):
     c = _ctx()
     n = linear.end_from_start(c, fx, "rangedep::ok_range") + linear.end_from_start(c, fx, "rangedep::bad_range")
     return n == 2 and _fires(c, "rangedep::bad_range") and not _fires(c, "rangedep::ok_range")
+
+
+def fx_scratch(fx):
+    from rules import scratch
+    c = _ctx()
+    n = scratch.run(c, fx, "src/lib.rs", "scratchfx::Enc") + scratch.run(c, fx, "src/lib.rs", "scratchfx::Enc2")
+    bad = [v["construct"] for v in c.violations]
+    return n == 3 and len(c.violations) == 2 and any("bad_blocks" in w for w in bad) and any("bad_encode" in w for w in bad) \
+        and not any("ok_" in w for w in bad)
+
+
+def fx_narrow(fx):
+    from rules import narrow
+    c = _ctx()
+    narrow.run(c, fx, ["src/lib.rs"], only=lambda fid: "narrowfx::" in fid)
+    return _fires(c, "narrowfx::bad_store") and not _fires(c, "narrowfx::ok_store") and not _fires(c, "narrowfx::ok_masked")
